@@ -45,7 +45,8 @@ func like(left, right string) (string, error) {
 func likeParam(left, right string, params []any) (string, error) {
 	if len(params) == 1 {
 		pright := params[0].(string)
-		if len(pright) >= 4 && pright[0] == '/' && pright[len(pright)-1] == '/' {
+		// the parameter is the unquoted pattern: /x/ is a regexp from two characters on
+		if len(pright) >= 2 && pright[0] == '/' && pright[len(pright)-1] == '/' {
 			return fmt.Sprintf("%s ~ %s", left, right), nil
 		}
 	}
